@@ -17,6 +17,7 @@ LEAN_TARGETS = ['IblVerif.Properties.C01']
 THEOREMS = [
     'IblVerif.C01.read_eq_index_calibrated',
     'IblVerif.C01.read_cbin_eq_index_calibrated_partial',
+    'IblVerif.C01.cbin_read_independent_of_chunk_layout',
     'IblVerif.C01.cbin_negative_step_counterexample',
     'IblVerif.C01.cbin_int_below_minus_ns_counterexample',
     'IblVerif.C01.cbin_numpy_integer_counterexample',
@@ -26,6 +27,12 @@ THEOREMS = [
     'IblVerif.C01.read_samples_eq',
     'IblVerif.C01.read_slice_entry',
     'IblVerif.C01.sync_unscaled',
+    'IblVerif.C01.sync_trace_indices_are_last',
+    'IblVerif.C01.s2v_layout_from_meta',
+    'IblVerif.C01.sync_trace_columns_unscaled',
+    'IblVerif.C01.read_pair_aligned',
+    'IblVerif.C01.read_samples_pair_eq',
+    'IblVerif.C01.float32_exact_cases',
     'IblVerif.C01.order_perm',
     'IblVerif.C01.order_sorted',
     'IblVerif.C01.raw_channel_order_perm',
@@ -55,7 +62,15 @@ RULE = ('synthetic recordings built from every fixture meta of src/tests/fixture
         'are opened a second time (after a reader with the other sort mode) and geometry_from_meta is called again: order, gains, geometry '
         'and data must equal the first reader.  The first 34 recordings are the 17 fixtures unchanged (sorted .bin, unsorted .cbin).  Plus an exhaustive box of slice(start, stop, step).indices(n) / '
         'integer indices against CPython.  Non-trivial = permutation not the identity, or non-uniform gains, or a step other than '
-        'None/1; distinct by (recording, operation).')
+        'None/1; distinct by (recording, operation).  Header variants: a quarter of the imec recordings (every family, fixture tables and '
+        'mutated ones, channel subsets) are saved WITHOUT their sync word (snsApLfSy=n,0,0 / 0,n,0, nSavedChans=n).  The model receives '
+        'the meta ENTRIES (nSavedChans, snsApLfSy, the whole imro table with both gain columns): band, table cut and sync ones are its own '
+        'decisions, compared as the float32 vector, as sr.type and as sr.nsync / _get_sync_trace_indices_from_meta.  On imec recordings '
+        'read_samples (all spellings, incl. module-level spikeglx.read) and sr.read(slice, csel) with sync=True (default or explicit) are '
+        'compared as PAIRS (data bit patterns + the 16 sync bits per row; 0 rows when the sync word is not saved).  For the first 30 '
+        '(thorough 1500) recordings ALL 65 536 int16 values are pushed through float32(x) * g for an electrode factor, the last '
+        "channel's factor and a random power of two (checksum of the bit patterns + number of exact products).  A broken translator tie "
+        'triples the number of recordings of a quick run.')
 ASSUMPTIONS = [
     'ns >= 1 (np.memmap cannot map an empty file); int16 content; list selectors hold integers (boolean masks are not index lists and are not generated)',
     'a list x list selector is compared with the outer-product layout the code produces (DESIGN §8), not with NumPy pointwise pairing',
@@ -64,7 +79,8 @@ ASSUMPTIONS = [
     'known findings on .cbin (model follows the code, theorem carries the excluding hypothesis, oracle excludes exactly them): negative-step sample slice -> empty (F17); Python int sample index < -ns wraps; NumPy integer sample index -> empty',
     'sr[t] with a tuple t of another length than two (the code hands it to read as the sample selector; NumPy itself would reject A[i, j, k]) is outside the property: the model follows the code for tuples of Python ints, the oracle does not use them',
     'site-table keys (shank, row, col) are integer valued (asserted on every generated table); the geometry conversion itself (col flip, x/y) belongs to C08: the unsorted geometry of the real code is the input of the order model',
-    'read_samples: only its data part is compared (Reader.read_sync is stubbed during the call; sync decoding is C10)',
+    'read_samples / read(sync=True): on imec recordings both parts of the pair are compared (sample selector a slice; the bit layout line k = bit k is the specification here, its derivation from split_sync is C10); on nidq recordings only the data part (Reader.read_sync is stubbed during the call: analog sync thresholding is C10); read(list or int, csel, sync=True) is not generated (the sync part pairs a sample list with the channel list NumPy-pointwise: C10)',
+    'imec metadata is consistent: 0 <= nsync <= nSavedChans, the band is decidable (exactly one of the AP / LF counts is zero), the imro table has an entry for every saved electrode channel (it may be longer); a recording saved without its sync word (nsync = 0) is inside the property',
     'ties of (shank, row, col): the model breaks them by on-disk index (np.lexsort is stable) and proves that; the comparison of raw_channel_order with the model and the oracle accept any order among electrodes with identical (shank, row, col), as the property does; the reads are then modelled with the order the reader reports',
     'input forms: the representation of a call is drawn independently of its value (NumPy integer scalars of 8 dtypes, slice bounds as NumPy ints, index sequences as list / int64 array / arrays of 8 integer dtypes / list of NumPy ints / boolean mask array or list / range / tuple (samples, .bin), read and read_samples by keyword or positionally in the current signature order, spikeglx.read as alternative entry of read_samples, Reader built from str or Path, by keyword, fully positionally, with dtype=np.int16, or open=False then open()); the model and the oracle work on the VALUE (a mask is its index list); a form that cannot hold the value falls back to the plain one',
     'unsupported forms, never produced: a TUPLE as channel selector (known finding tuple_channel_selector), tuples / ranges of samples on a .cbin (mtscomp), float / Ellipsis / None selectors',
@@ -76,6 +92,9 @@ TRUSTED = [
     'Lean Float32/Float arithmetic and Float.toFloat32 / Float32.ofInt are IEEE-754 round-to-nearest-even like NumPy (bit patterns compared on every case)',
     'mtscomp.Reader.__getitem__ is an external component: transcribed in Reader.rowsCbin and compared on every .cbin case, not verified',
     'np.lexsort is a stable sort (model: merge sort on (key, index) pairs)',
+    'standard model of IEEE-754 rounding for the exact-case theorems: an operation returns the correctly rounded exact result and rounding fixes representable numbers (float32_exact_cases is stated for any such rounding)',
+    'translator tie: harness/pyfn2lean.py (reading of the source text) and the per-item assumptions of harness/tiespecs/c01.py (imec metadata: the nidq test of _get_type_from_meta is false; Reader.__init__ on a file with a .meta and a geometry)',
+    'Lemmas/ChunkRead.lean (C02) for the chunk-level transcription of mtscomp used by cbin_read_independent_of_chunk_layout',
 ]
 
 FIX = None   # fixtures directory, set lazily from the repo under test
@@ -185,9 +204,18 @@ def gen_spec(rng, k, quick=True):
         spec['table_style'] = 'none'
     else:
         nc0 = int(_get(lines, 'nSavedChans'))
-        nsync = int(_get(lines, 'snsApLfSy').split(',')[2])
-        nchn = nc0 - nsync
+        nsync0 = int(_get(lines, 'snsApLfSy').split(',')[2])
+        nchn = nc0 - nsync0
+        # legal header variant: the sync word is not saved (snsApLfSy=n,0,0, nSavedChans = number of electrode channels)
+        nsync = 0 if (not forced and rng.random() < 0.25) else nsync0
+        spec['nsync'] = nsync
         spec['table_style'] = 'fixture'
+        if nsync != nsync0:
+            over['nSavedChans'] = str(nchn + nsync)
+            over['snsApLfSy'] = f'{nchn},0,{nsync}' if band == 'ap' else f'0,{nchn},{nsync}'
+            sub = _get(lines, 'snsSaveChanSubset')
+            if sub is not None and ',' in sub:
+                over['snsSaveChanSubset'] = sub.rsplit(',', 1)[0]
         if mutate:
             if rng.random() < 0.5:
                 over['imAiRangeMax'] = _fmt_float(rng.choice([0.6, 0.5, 0.62, 1.2, 0.7]))
@@ -218,7 +246,7 @@ def gen_spec(rng, k, quick=True):
                     spec['inconsistent'] = True
                 over['nSavedChans'] = str(nchn + nsync)
                 over['snsApLfSy'] = f'{nchn},0,{nsync}' if band == 'ap' else f'0,{nchn},{nsync}'
-                over['snsSaveChanSubset'] = f'0:{nchn - 1},768'
+                over['snsSaveChanSubset'] = f'0:{nchn - 1},768' if nsync else f'0:{nchn - 1}'
             if fam == 'np1':
                 # non-uniform gain table; the imro table may be longer than the saved channels (the code cuts it)
                 extra = int(rng.integers(0, 3)) if mapkind is not None else 0
@@ -251,7 +279,7 @@ def gen_spec(rng, k, quick=True):
         spec['sort'], spec['backend'] = (True, 'bin') if k < len(FIXTURES) else (False, 'cbin')
     spec['data_seed'] = int(rng.integers(0, 2 ** 31))
     spec['over'] = over
-    spec['ops'] = gen_ops(rng, ns, nc, spec['backend'], big)
+    spec['ops'] = gen_ops(rng, ns, nc, spec['backend'], big, fam)
     # call sequence of every operation (see run_sequence) and whether lists are handed over as ndarrays
     spec['modes'] = [[MODES[int(rng.choice(3, p=[.55, .3, .15]))], gen_form(rng)] for _ in spec['ops']]
     spec['ctor'] = str(rng.choice(CTOR_FORMS))
@@ -313,7 +341,14 @@ def gen_sel(rng, n, kinds='isl', big=False):
     return 'l:' + (','.join(map(str, _gen_list(rng, n))) or '-')
 
 
-def gen_ops(rng, ns, nc, backend, big):
+def _gen_slice(rng, n, big=False):
+    s = gen_sel(rng, n, big=big)
+    while not s.startswith('s:'):
+        s = gen_sel(rng, n, big=big)
+    return s
+
+
+def gen_ops(rng, ns, nc, backend, big, fam='np1'):
     ops = []
     for _ in range(int(rng.integers(8, 12))):
         via = 'getitem' if rng.random() < 0.7 else 'read'
@@ -349,6 +384,12 @@ def gen_ops(rng, ns, nc, backend, big):
     b = int(rng.integers(-ns - 1, ns + 2))
     ch = 'none' if rng.random() < 0.4 else gen_sel(rng, nc, big=big)
     ops.append(['rs', a, b, ch])
+    if fam != 'nidq':
+        # read(slice, csel) with sync=True (the default): calibrated data AND the sync bits of the same samples
+        ops.append(['rp', _gen_slice(rng, ns), gen_sel(rng, nc, big=big), 'default' if rng.random() < 0.6 else 'true'])
+        if rng.random() < 0.5:
+            a = int(rng.integers(-ns - 1, ns + 2))
+            ops.append(['rs', a, a + int(rng.integers(-1, ns + 2)), 'none' if rng.random() < 0.5 else gen_sel(rng, nc, big=big)])
     return ops
 
 
@@ -538,6 +579,22 @@ def canon(r):
     return f'{pre} ndim{r.ndim}'
 
 
+def canon_sync(y):
+    """the sync part of a pair: rows of 16 bits (values only: the dtype is not part of the property)"""
+    if y is None:
+        return 'sync none'
+    y = np.asarray(y)
+    if y.ndim != 2 or (y.shape[0] and y.shape[1] != 16):
+        return 'sync shape%s' % (tuple(y.shape),)
+    return 'sync %d %s' % (y.shape[0], ','.join(map(str, y.astype(np.int64).reshape(-1).tolist())) or '-')
+
+
+def canon_pair(r):
+    if not isinstance(r, tuple) or len(r) < 2:
+        return canon(r) + ' | not a pair'
+    return canon(r[0]) + ' | ' + canon_sync(r[1])
+
+
 def canon_int(r):
     r = np.asarray(r)
     body = ','.join(map(str, r.reshape(-1).tolist())) or '-'
@@ -575,6 +632,8 @@ def build_args(op, form=False, dims=(None, None), backend='bin'):
         return [tuple([] if op[1] == '-' else [int(v) for v in op[1].split(',')])]
     if op[0] == 'rs':
         return [int(op[1]), int(op[2]), None if op[3] == 'none' else py_sel(op[3], form, **kc)]
+    if op[0] == 'rp':
+        return [py_sel(op[1], form, **kn), py_sel(op[2], form, **kc)]
     raise RuntimeError(op)
 
 
@@ -582,7 +641,7 @@ def call_spelling(spec, op, form):
     """which spelling of the call is used: keywords, positional in the order of the current signature, or an alternative
     entry point (module-level spikeglx.read for read_samples of all channels on a sorted imec recording)"""
     c = form.get('call', 'kw') if isinstance(form, dict) else 'kw'
-    if op[0] == 'read' and op[1] == 'read':
+    if (op[0] == 'read' and op[1] == 'read') or op[0] == 'rp':
         return 'pos' if c == 'pos' else 'kw'
     if op[0] == 'rs':
         if c == 'alt' and op[3] == 'none' and spec['sort'] and spec['family'] != 'nidq':
@@ -604,8 +663,10 @@ def _freeze(a):
     return (type(a).__name__, repr(a))
 
 
-def call_op(sr, op, args, spelling='kw', file=None):
-    """one call of the real reader; returns (canonical answer, returned object or None)"""
+def call_op(sr, op, args, spelling='kw', file=None, pair=False):
+    """one call of the real reader; returns (canonical answer, returned object or None).  `pair`: an imec recording, whose
+    read_samples / read(sync=True) results are compared as (data, sync bits); on nidq recordings only the data part is (the
+    analog sync thresholding is C10's subject)"""
     try:
         if op[0] == 'read':
             if op[1] == 'getitem':
@@ -620,6 +681,21 @@ def call_op(sr, op, args, spelling='kw', file=None):
             r = sr[args[0], args[1]]
         elif op[0] == 'itemi':
             r = sr[args[0]]
+        elif op[0] == 'rp':
+            if spelling == 'pos':
+                r = sr.read(args[0], args[1]) if op[3] == 'default' else sr.read(args[0], args[1], True)
+            else:
+                r = sr.read(nsel=args[0], csel=args[1]) if op[3] == 'default' else sr.read(nsel=args[0], csel=args[1], sync=True)
+            return canon_pair(r), r
+        elif op[0] == 'rs' and pair:
+            if spelling == 'alt':
+                import spikeglx
+                r = spikeglx.read(str(file), args[0], args[1])
+            elif spelling == 'kw':
+                r = sr.read_samples(first_sample=args[0], last_sample=args[1], channels=args[2])
+            else:
+                r = sr.read_samples(args[0], args[1], args[2])
+            return canon_pair(r), r
         elif op[0] == 'rs':
             if spelling == 'alt':
                 import spikeglx
@@ -707,11 +783,11 @@ def run_sequence(R, op, array_lists=False, mode='plain'):
             flags.append('form:list of bool' if x and isinstance(x[0], bool) else 'form:list of NumPy ints' if x and isinstance(x[0], np.generic) else 'form:list')
         elif isinstance(x, (tuple, range)):
             flags.append('form:' + type(x).__name__)
-    if op[0] in ('rs',) or (op[0] == 'read' and op[1] == 'read'):
+    if op[0] in ('rs', 'rp') or (op[0] == 'read' and op[1] == 'read'):
         flags.append('form:call=' + spelling)
 
     def once():
-        a, _ = call_op(sr, op, args, spelling, R.file)
+        a, _ = call_op(sr, op, args, spelling, R.file, pair=R.spec['family'] != 'nidq')
         answers.append(a)
         seq.append('r%d = %s' % (len(answers), op_call_text(op, args, spelling)))
         if any(_freeze(x) != y for x, y in zip(args, keep)):
@@ -744,9 +820,14 @@ def op_call_text(op, args, spelling='kw'):
         return 'sr[%s]' % a[0]
     if op[0] == 'itemt':
         return 'sr[%s, %s]' % (a[0], a[1])
+    if op[0] == 'rp':
+        if spelling == 'pos':
+            return ('sr.read(%s, %s)' if op[3] == 'default' else 'sr.read(%s, %s, True)') % (a[0], a[1])
+        return ('sr.read(nsel=%s, csel=%s)' if op[3] == 'default' else 'sr.read(nsel=%s, csel=%s, sync=True)') % (a[0], a[1])
     if spelling == 'alt':
-        return 'spikeglx.read(str(file), %s, %s)[0]' % (a[0], a[1])
-    return ('sr.read_samples(first_sample=%s, last_sample=%s, channels=%s)[0]' if spelling == 'kw' else 'sr.read_samples(%s, %s, %s)[0]') % tuple(a)
+        return 'spikeglx.read(str(file), %s, %s)[0:2]' % (a[0], a[1])
+    return ('sr.read_samples(first_sample=%s, last_sample=%s, channels=%s)' if spelling == 'kw' else 'sr.read_samples(%s, %s, %s)') % tuple(a) \
+        + ' (data part; on an imec recording also the sync part)'
 
 
 def run_op(R, op, array_lists=False, mode='plain'):
@@ -786,9 +867,13 @@ def reopen_check(R):
     return problems
 
 
-def op_line(op):
+def op_line(op, spec=None):
     if op[0] == 'read':
         return f'read {op[2]} {op[3]}'
+    if op[0] == 'rp':
+        return f'rp {op[1]} {op[2]}'
+    if op[0] == 'rs' and spec is not None and spec['family'] != 'nidq':
+        return f'rsp {op[1]} {op[2]} {op[3]}'
     return ' '.join(str(x) for x in op)
 
 
@@ -832,18 +917,26 @@ def rec_lines(R):
         impl.append('ok ' + (','.join(map(str, np.asarray(s2v, dtype='<f8').view('<u8').tolist())) or '-') if s2v.dtype == np.float64
                     else f'ok[{s2v.dtype}]')
     else:
+        # the model gets the meta ENTRIES (nSavedChans, snsApLfSy, the whole imro table): which band's gain column is used,
+        # where the table is cut and which trailing channels are sync channels is decided by the model (Reader.s2vNp1 / s2vNp2)
         a, l, sy = (int(float(x)) for x in txt['snsApLfSy'].split(','))
-        nchn = int(txt['nSavedChans']) - sy
+        nsaved = int(txt['nSavedChans'])
         maxint = int(txt.get('imMaxInt', 512))
         rb = _f64bits(float(txt['imAiRangeMax']))
         if spec['family'] == 'np2':
-            lines.append(f'gains np2 {rb} {maxint} {nchn} {sy}')
+            lines.append(f'gainsm np2 {rb} {maxint} {nsaved} {a} {l} {sy}')
         else:
-            ent = re.findall(r'\(([0-9 ]+)\)', txt['imroTbl'])[:nchn]
-            col = 3 if spec['band'] == 'ap' else 4
-            lines.append(f'gains np1 {rb} {maxint} {sy} ' + (','.join(e.split()[col] for e in ent) or '-'))
+            ent = re.findall(r'\(([0-9 ]+)\)', txt['imroTbl'])          # all entries (the header holds commas: no match)
+            lines.append(f'gainsm np1 {rb} {maxint} {nsaved} {a} {l} {sy} ' + (','.join(e.split()[3] for e in ent) or '-') + ' '
+                         + (','.join(e.split()[4] for e in ent) or '-'))
         impl.append('ok ' + (','.join(map(str, np.asarray(s2v).view('<u4').tolist())) or '-') if s2v.dtype == np.float32
                     else f'ok[{s2v.dtype}]')
+        # the decisions themselves: band (= key of the vector) and the sync trace indices / Reader.nsync
+        lines.append(f'band {a} {l}')
+        impl.append('ok ' + str(sr.type))
+        lines.append(f'nsync {nsaved} {sy}')
+        si = [int(i) for i in spikeglx._get_sync_trace_indices_from_meta(sr.meta)]
+        impl.append(f'ok {int(sr.nsync)} ' + (','.join(map(str, si)) or '-'))
     return lines, impl, g0
 
 
@@ -864,18 +957,25 @@ def _tags(spec, op, impl_ans, order_ident, uniform):
          'mutated' if spec['mutated'] else 'asis', 'table=' + spec['table_style'],
          'perm=identity' if order_ident else 'perm=nonidentity', 'gains=uniform' if uniform else 'gains=nonuniform',
          'op=' + op[0]]
+    if spec['family'] != 'nidq' and spec.get('nsync') == 0:
+        t.append('sync word not saved')
     if len(op) >= 2 and op[-2] in MODES:
         t.append('seq=' + op[-2])
         t.append('ctor=' + spec.get('ctor', 'path-kw'))
     w = impl_ans.split()
     if impl_ans.startswith('err'):
         t.append('out=' + ' '.join(w[:2]))
-    elif op[0] in ('read', 'item1', 'itemt', 'itemi', 'rs', 'select'):
+    elif op[0] in ('read', 'item1', 'itemt', 'itemi', 'rs', 'rp', 'select'):
         kind = w[1] if len(w) > 1 else '?'
         empty = (kind == 'v' and w[2] == '0') or (kind == 'm' and (w[2] == '0' or w[3] == '0'))
         t.append('out=' + {'s': '0-d', 'v': '1-d', 'm': '2-d'}.get(kind, kind) + (' empty' if empty else ''))
-    sels = op[2:4] if op[0] in ('read', 'select') else (op[1:3] if op[0] == 'itemt' else [op[1]] if op[0] == 'item1' else ([op[3]] if op[0] == 'rs' and op[3] != 'none' else []))
-    for ax, s in zip(('n', 'c'), sels):
+    sels = op[2:4] if op[0] in ('read', 'select') else (op[1:3] if op[0] in ('itemt', 'rp') else [op[1]] if op[0] == 'item1' else ([op[3]] if op[0] == 'rs' and op[3] != 'none' else []))
+    if op[0] in ('rs', 'rp'):
+        if 'nsync' in spec:
+            t.append('nsync=%s' % spec['nsync'])
+        if ' | sync ' in impl_ans:
+            t.append('pair: data + sync bits')
+    for ax, s in zip(('c',) if op[0] == 'rs' else ('n', 'c'), sels):
         kind = s[0]
         if kind == 's':
             st = s.split(':')[3]
@@ -984,10 +1084,34 @@ def jsonable_small(res):
     return {'op': op, 'observed': str(obs)[:160], 'expected': str(exp)[:160]}
 
 
+_X16 = np.arange(-32768, 32768).astype(np.int16)
+_W16 = np.arange(1, 65537, dtype=np.uint64)
+
+
+def calall_numpy(g):
+    """float32(x) * g for every int16 x with NumPy's own casting rules (float32 array *= float32 / float64 factor):
+    (kind, bit pattern of g, sum over k of (k+1) * bits(result_k) mod 2^64, number of exact products)"""
+    A = _X16.astype(np.float32, copy=True)
+    X = A.astype(np.float64)
+    gv = np.array([g], dtype=g.dtype)
+    A *= gv
+    with np.errstate(over='ignore'):
+        chk = int((_W16 * A.view(np.uint32).astype(np.uint64)).sum(dtype=np.uint64))
+    if g.dtype == np.float32:
+        nexact = int(np.count_nonzero(A.astype(np.float64) == X * np.float64(g)))
+        return 'f32', int(gv.view(np.uint32)[0]), chk, nexact
+    return 'f64', int(gv.view(np.uint64)[0]), chk, -1
+
+
 def correspondence(ctx):
     slice_box(ctx)
     scale_cases(ctx)
     nrec = ctx.n(800, 12000)
+    ncal = ctx.n(30, 1500)
+    if ctx.tier == 'quick' and ctx.escalated:
+        # a broken translator tie deepens the quick run (3 x the recordings, thorough slice box) without turning it into the
+        # 12 000-recording thorough tier, which would not fit the time limit of a quick check
+        nrec, ncal = 2400, 90
     batch = 130
     for b0 in range(0, nrec, batch):
         lines, expect = [], []   # expect: (kind, spec, op, impl_answer, extra)
@@ -1010,17 +1134,36 @@ def correspondence(ctx):
                 gsorted = geom_canon(R.sr.geometry)
                 for j, (l, a) in enumerate(zip(rl, ri)):
                     lines.append(l)
-                    kd = ('rec', 'order', 'setorder', 'gains')[j]
+                    kd = ('rec', 'order', 'setorder', 'gains', 'band', 'nsync')[j]
                     expect.append((kd, spec, [kd], a, (ident, uniform, g0, gsorted)))
                 sub = ctx.subrng(2, k)
                 for op, (mode, arr) in zip(spec['ops'], spec['modes']):
-                    lines.append(op_line(op))
+                    lines.append(op_line(op, spec))
                     ans, flags = run_op(R, op, array_lists=arr, mode=mode)
                     expect.append(('op', spec, op + [mode, arr], ans, (ident, uniform, None, tuple(flags))))
                     if op[0] == 'read' and sub.random() < 0.35:
                         # the specification side against NumPy itself, on the raw integers
                         lines.append(f'select {op[2]} {op[3]}')
                         expect.append(('op', spec, ['select', 'numpy', op[2], op[3]], numpy_select(R.D, op, arr), (True, True, None, None)))
+                if k < ncal:
+                    # ALL int16 sample values at once for (up to) three factors of this recording: an electrode factor, the
+                    # last channel's (one on a sync channel) and a power of two; checksum of the 65 536 float32 bit patterns
+                    # and the number of exact products
+                    picks = [s2v[0], s2v[-1]]
+                    if s2v.dtype == np.float32:
+                        picks.append(np.float32(2.0) ** int(sub.integers(-30, 8)))
+                    seen = set()
+                    for gv in picks:
+                        key = (str(s2v.dtype), gv.tobytes())
+                        if key in seen:
+                            continue
+                        seen.add(key)
+                        kd, bits, chk, nexact = calall_numpy(gv)
+                        lines.append(f'calall {kd} {bits}')
+                        expect.append(('op', spec, ['calall', kd, bits], f'ok {chk}', (True, True, None, None)))
+                        if kd == 'f32':
+                            lines.append(f'exact32 {bits}')
+                            expect.append(('op', spec, ['exact32', bits], f'ok {nexact}', (True, True, None, ('exact products %s' % ('65536 of 65536' if nexact == 65536 else '< 65536'),))))
                 if spec['reopen']:
                     pr = reopen_check(R)
                     ctx.compare('reopen', {'k': spec['k'], 'fixture': spec['fixture'], 'backend': spec['backend'], 'sort': spec['sort'],
@@ -1099,7 +1242,7 @@ def excluded(spec, op):
     ns = spec['ns']
     if op[0] == 'itemi':
         return 'tuple of ints handed to sr[...] (NumPy itself rejects A[i, j, k]; length two is covered by itemt)'
-    nsel = op[2] if op[0] == 'read' else op[1] if op[0] in ('item1', 'itemt') else None
+    nsel = op[2] if op[0] == 'read' else op[1] if op[0] in ('item1', 'itemt', 'rp') else None
     if spec['backend'] == 'cbin' and nsel is not None:
         if nsel[0] == 'l':
             return 'list of samples on a compressed file (outside the property)'
@@ -1168,15 +1311,25 @@ def oracle_recording(R, ops=None):
             answers, _flags, seq = run_sequence(R, op, array_lists=arr, mode=md)
             case = [op, md, arr]
             try:       # the expectation is stated on the VALUES of the selectors (plain Python ints / lists / slices)
+                rows = None
                 if op[0] == 'read':
                     exp = A[py_sel(op[2]), :][..., py_sel(op[3])]
                 elif op[0] == 'item1':
                     exp = A[py_sel(op[1])]
                 elif op[0] == 'itemt':
                     exp = A[py_sel(op[1]), :][..., py_sel(op[2])]
+                elif op[0] == 'rp':
+                    exp = A[py_sel(op[1]), :][..., py_sel(op[2])]
+                    rows = py_sel(op[1])
                 else:
                     exp = A[int(op[1]):int(op[2]), :][..., slice(None) if op[3] == 'none' else py_sel(op[3])]
+                    rows = slice(int(op[1]), int(op[2]))
                 exp = canon(np.asarray(exp))
+                if rows is not None and spec['family'] != 'nidq':
+                    # the sync part of the pair: line k of the rows is bit k of the stored sync word of the SAME samples
+                    # (0 rows when the sync word was not saved)
+                    w = D[rows, nc - nsync:].astype(np.int64).reshape(-1) & 0xFFFF
+                    exp += ' | ' + canon_sync(((w[:, None] >> np.arange(16)[None, :]) & 1).reshape(-1, 16))
             except (IndexError, ValueError) as e:
                 exp = 'err'
             for n, obs in enumerate(answers):
@@ -1216,7 +1369,7 @@ def _case(c):
 def _replay_input(spec, D, case):
     op, mode, arr = _case(case)
     calls = None
-    if op[0] in ('read', 'item1', 'itemt', 'itemi', 'rs'):
+    if op[0] in ('read', 'item1', 'itemt', 'itemi', 'rs', 'rp'):
         calls = {'plain': 'one call', 'repeat': 'three identical calls on the same Reader with the same argument objects',
                  'interleave': 'call, then the library calls listed in harness/props/c01.py interleave() (geometry_from_meta, '
                                '_conversion_sample2v_from_meta, _get_nshanks_from_meta, trace_header, range_volts, read_sync, other reads), '
@@ -1286,7 +1439,7 @@ def search(ctx, reasons):
             simple = [['read', 'getitem', 'i:0', 'i:0'], ['read', 'getitem', 's:_:_:_', 's:_:_:_'], ['read', 'getitem', 's:_:_:_', 'i:0'],
                       ['read', 'getitem', 's:_:_:_', 'l:0'], ['item1', 'l:0,0'], ['item1', 'l:0'], ['item1', 'n:0']]
             tries = [(o, md, arr) for md in dict.fromkeys(['plain', mode]) for o in simple]
-            if op[0] in ('read', 'item1', 'itemt', 'rs'):
+            if op[0] in ('read', 'item1', 'itemt', 'rs', 'rp'):
                 tries += [(op, 'plain', arr), (op, mode, arr)]
             for t in tries:
                 r2, D2 = _check_spec(s2, data=D[:ns2], ops=[t])
@@ -1379,12 +1532,35 @@ LEVEL_TEXT = ('Lean 4 theorems for every recording (any int16 content, any chann
               'NumPy indexing of the whole calibrated array (datum and gain fetched through the same on-disk index), sync columns unscaled, '
               'the channel order is a permutation sorted by (shank, row, -col) with ties in disk order, geometry entry i describes column i, '
               'sort=False is the disk order; CPython slice/index semantics (closed form, range, length, emptiness) proved generically.  '
-              'The model is tied to spikeglx.Reader by a bit-exact differential run (float32 bit patterns, exception classes) on synthetic '
-              'recordings from every fixture generation, .bin and .cbin')
-LEVEL_NOTE = ('the scaling theorem is generic in the multiplication, so IEEE rounding is not reasoned about: the float32/float64 dtype chain '
-              '(f32(x)*f32(g); nidq f32(f64(f32(x))*g64); gain formulas) is executed by the driver and compared bit for bit, i.e. checked '
-              'numerically, not proved; .cbin statement is partial: it carries the hypothesis that the sample selector is a Python int in '
-              '[-ns, ns) or a slice with a non-negative step (mtscomp, external, is transcribed and compared, and the three excluded classes '
-              'have counterexample theorems); geometry conversion (x/y/col flip) is C08')
-TECHNIQUE = ('Lean 4 proofs by induction / omega over a transcription of Reader.read, CPython slice.indices and the lexsort order '
-             '(core List.mergeSort lemmas); bit-exact correspondence run incl. an exhaustive slice box; independent NumPy oracle for the search')
+              'New: the volts-per-bit vector is derived INSIDE the model from the meta entries (band decision, imro table cut to '
+              'nSavedChans - nsync, ones on exactly the sync trace indices, also when the sync word is not saved) with a layout theorem and '
+              '"sync trace columns unscaled" stated on the meta entries; read(slice, csel, sync=True) / read_samples / module-level read '
+              'return the calibrated slice AND the sync bits of the same samples (row p of both parts comes from sample a + p*step); the '
+              '.cbin sample axis agrees with the chunk-level transcription of mtscomp for EVERY chunk layout (positive step, ints in '
+              '[-ns, ns)); exact cases of the float32 chain over the reals (int16 -> float32 exact and injective, factor 1, powers of two, '
+              'short significands).  The model is tied to spikeglx.Reader (1) by a bit-exact differential run (float32 bit patterns, '
+              'exception classes, sync bits, all 65 536 int16 values per sampled factor) on synthetic recordings from every fixture '
+              'generation, .bin and .cbin, with and without a saved sync word, and (2) by a translator tie: the band decision, the meta '
+              'entry counting the sync words, nSavedChans, the unsorted geometry index, the statement skeletons of Reader.read (three '
+              'array statements, variables read), Reader.__init__ (order set-up, sort forwarded) and geometry_from_meta (sort keys with '
+              'signs, lexsort, re-indexing) and the forwarding of module-level read are re-translated from src/spikeglx.py on every run '
+              'and proved equal to the model definitions (Tie/C01.lean, incl. the composed vector theorems s2v_np1/np2_from_source)')
+LEVEL_NOTE = ('partial on the float32 chain: the scaling theorem is generic in the multiplication; that float32(x) * factor is what NumPy '
+              'computes is EXECUTED by the driver (f32(x)*f32(g); nidq f32(f64(f32(x))*g64); gain formulas 1/f32(gain)*f32(i2v), f32(i2v/80)) '
+              'and compared bit for bit — per case and, for sampled factors, over all 65 536 int16 values — not proved; proved over the '
+              'reals (standard model) are only the exact cases (cast, factor 1, powers of two, short significands).  .cbin statement is '
+              'partial: it carries the hypothesis that the sample selector is a Python int in [-ns, ns) or a slice with a non-negative step '
+              '(mtscomp, external, is transcribed chunk-free in Reader.rowsCbin and chunk-level in ChunkRead.mtsSlice, the two proved equal '
+              'for all chunk layouts, both compared with the installed mtscomp; the three excluded classes have counterexample theorems).  '
+              'The translator tie covers integer / decision skeletons and STATEMENT skeletons: for Reader.read, Reader.__init__ and the '
+              'ordering part of geometry_from_meta it proves which array statements the source performs, in which order and on which '
+              'variables (the permuted csel indexes both the column gather and the gain gather; keys -col,row,shank; sort forwarded), '
+              'not what NumPy computes for them (row gather, astype, column gather, in-place multiply, lexsort: hand model + '
+              'correspondence); the isinstance/len dispatch of __getitem__ and the body of read_samples (values of return statements) are '
+              'outside the translator subset.  nidq gains and the sync BIT layout are taken as '
+              'specification here (C09 / C10); geometry conversion (x/y/col flip) is C08')
+TECHNIQUE = ('Lean 4 proofs by induction / omega over a transcription of Reader.read, CPython slice.indices, the lexsort order '
+             '(core List.mergeSort lemmas), the meta-entry decisions behind the gain vector, the read(sync=True) pair and the chunked '
+             '.cbin read; Mathlib reals for the exact float32 cases; translator tie (source text -> Lean, re-proved every run) for the '
+             'integer / decision skeleton; bit-exact correspondence run incl. an exhaustive slice box and all-int16 sweeps; independent '
+             'NumPy oracle for the search')
